@@ -9,7 +9,7 @@ error).  The theorems hold for every broker state in which the connection is
 live and its session reference resolves; `Inv` (kept by every event, so true of
 every state reachable from the initial one) guarantees the latter.
 -/
-import Mqtt.Proofs.BrokerLifeWill
+import Mqtt.Proofs.BrokerLifeWillKept
 
 namespace Mqtt.Properties.C09
 open Mqtt.Iface.Broker Mqtt.Model.Broker Mqtt.Proofs.BrokerLife
@@ -199,5 +199,100 @@ example :
        .send 2 (.publish { qos := 1, topic := Ex.tW, pktid := 9, payload := [3] }),
        .call 1000 { qos := 0, topic := Ex.tW, pktid := 9, payload := [3] }] ∧
     (stop (eraseWills Ex.base2) 1).2 ≠ (stop Ex.base2 1).2 := by decide
+
+/-! ### 5. over any history between the CONNECT and the end -/
+
+/-- One event keeps the will message and the will flag of session object `r`
+unless it is entitled to change them (`affectsWill`: a CONNECT that resumes `r`,
+or the DISCONNECT / end of a connection served by `r`). -/
+theorem C09_will_kept_step (b : B) (hi : Inv b) (e : Ev) (r : Nat) (s : Sess)
+    (hs : b.getSess r = some s) (h : ¬ affectsWill b r e) :
+    ∃ s', (step b e).1.getSess r = some s' ∧ s'.will = s.will ∧ s'.willFlag = s.willFlag :=
+  step_will_kept hi e r s hs h
+
+/-- what `affectsWill` and `endsConn` say -/
+theorem C09_affectsWill_iff (b : B) (r : Nat) (e : Ev) :
+    (affectsWill b r e ↔
+      (∃ c, (e = .close c ∨ e = .packet c .disconnect) ∧ (b.getConn c).map (·.sess) = some r) ∨
+      (∃ c req a, e = .first c (.connect req) a ∧ accepts (.connect req) a = true ∧
+        (resumed b c req).map (·.ref) = some r)) ∧
+    (∀ c, endsConn c e ↔ e = .close c ∨ e = .packet c .disconnect ∨ ∃ f a, e = .first c f a) := by
+  constructor
+  · cases e with
+    | close c => simp [affectsWill, sessRefOf]
+    | packet c p => cases p <;> simp [affectsWill, sessRefOf]
+    | first c f a =>
+      cases f with
+      | connect req =>
+        simp only [affectsWill]
+        constructor
+        · intro h; exact .inr ⟨c, req, a, rfl, h.1, h.2⟩
+        · rintro (⟨c', (h | h), _⟩ | ⟨c', req', a', h, h1, h2⟩)
+          · cases h
+          · cases h
+          · cases h; exact ⟨h1, h2⟩
+      | other t => simp [affectsWill]
+      | garbage => simp [affectsWill]
+    | srvPub p => simp [affectsWill]
+    | srvSub cb f q => simp [affectsWill]
+    | srvUnsub cb f => simp [affectsWill]
+  · intro c
+    cases e with
+    | close c' => simp [endsConn, eq_comm]
+    | packet c' p => cases p <;> simp [endsConn, eq_comm]
+    | first c' f a => simp [endsConn, eq_comm]
+    | srvPub p => simp [endsConn]
+    | srvSub cb f q => simp [endsConn]
+    | srvUnsub cb f => simp [endsConn]
+
+/-- The property over histories.  Connection `c` is accepted with a CONNECT
+carrying the will `w` (fresh or resumed session); then any events happen —
+traffic of `c` and of every other client, the in-process API, other connections
+coming and going — none of which ends `c`, reuses its number, or belongs to a
+connection sharing `c`'s session object (`quiet`; two live connections under one
+client identifier are outside the property).  When `c` then ends without
+DISCONNECT, the output is the close followed by exactly the publish-path
+outputs for `w` as given in `c`'s own CONNECT. -/
+theorem C09_will_of_own_connect (b0 : B) (hi : Inv b0) (c : Nat) (req : Connect) (authOk : Bool) (w : Will)
+    (hacc : ∃ sp, Out.send c (.connack sp 0) ∈ (first b0 c (.connect req) authOk).2)
+    (hw : req.will = some w) (hv : validTopic w.topic = true)
+    (cn : Conn) (hcn : (first b0 c (.connect req) authOk).1.getConn c = some cn)
+    (evs : List Ev) (hq : quiet cn.sess c (first b0 c (.connect req) authOk).1 evs) :
+    ∃ s, (stop (run (first b0 c (.connect req) authOk).1 evs).1 c).2 =
+      .closed c :: (onPublish (stopBase (run (first b0 c (.connect req) authOk).1 evs).1 c s)
+        ⟨{ qos := w.qos, retain := w.retain, topic := w.topic, payload := w.payload }, true⟩).2.2.1 := by
+  obtain ⟨cn', s, hc, ha, hs, hf, hwl⟩ := C09_will_is_current_connect b0 c req authOk hacc
+  rw [hcn] at hc; cases hc
+  have hi1 : Inv (first b0 c (.connect req) authOk).1 := inv_first hi c _ authOk
+  obtain ⟨hc2, s2, hs2, hw2⟩ := run_will_kept evs hi1 cn.sess c cn s hcn hs hq
+  refine ⟨s2, ?_⟩
+  rw [initWill_some req w hw hv] at hwl
+  rw [hw] at hf
+  exact stop_out_will _ c cn s2 _ hc2 ha hs2 (hw2.2.trans hf) (hw2.1.trans hwl)
+
+/-- and after a DISCONNECT at the end of such a history: nothing -/
+theorem C09_disconnect_after_history (b : B) (hi : Inv b) (evs : List Ev) (c : Nat)
+    (h : (run b evs).1.alive c = true) :
+    (run (run b evs).1 [.packet c .disconnect, .close c]).2 = [[.closed c], []] := by
+  obtain ⟨cn, s, hc, ha, hs⟩ := (inv_run evs hi).live h
+  obtain ⟨h1, _, h3, _⟩ := C09_disconnect_no_will _ c cn s hc ha hs
+  simp only [run, step, h1, h3]
+
+/-- non-vacuity: "A" returns as connection 3 (resumed, new will on "x"); a
+client "C" connects as 4 and subscribes to "x", 2 publishes, 2 leaves; then 3
+drops: its own will is published (to 4). -/
+example :
+    let req := Ex.conn Ex.idA false (some ⟨[120], [5], 1, false⟩)
+    let b0 := (run Ex.base2 [.close 1]).1
+    let evs : List Ev := [.first 4 (.connect (Ex.conn [67] true (some ⟨Ex.tW, [6], 0, false⟩))) true,
+      .packet 4 (.subscribe 1 [([120], 1)]), .packet 2 (.publish { qos := 0, topic := [120], payload := [8] }),
+      .packet 2 .disconnect]
+    (first b0 3 (.connect req) true).1.getConn 3 = some ⟨3, 1, true⟩ ∧
+    quiet 1 3 (first b0 3 (.connect req) true).1 evs ∧
+    (stop (run (first b0 3 (.connect req) true).1 evs).1 3).2 =
+      [.closed 3, .send 4 (.publish { qos := 1, topic := [120], pktid := 3, payload := [5] })] := by
+  refine ⟨by rfl, ?_, by decide⟩
+  simp only [quiet, affectsWill, endsConn, sessRefOf, not_false_eq_true, true_and, and_true]
+  decide
 
 end Mqtt.Properties.C09
